@@ -151,7 +151,7 @@ def run(eng, ctx):
     # ---------------- D4 guard ⊆ definitions
     ctx.rule("C18.D4", "every identity on which the helper's guard passes provides every attribute the helper dereferences unconditionally "
                        "(guard and attribute sets evaluated over the finite universe of identities)")
-    universe = sorted(set(T.msgids) | set(attrs) | {"4095"})
+    universe = sorted(set(T.msgids) | set(attrs) | {str(n) for n in range(4096)})  # every 12-bit message number + all defined identities
     ismsm = _msm_true_keys(eng, universe)
     fails = []
     passed = 0
@@ -200,7 +200,7 @@ def run(eng, ctx):
         ctx.ok("C18.D4", pm.qualname, "guard admits identities without the attributes used", found=f"{passed} identities pass the guard, all provide the attributes", **loc)
     for u in undec[:2]:
         ctx.undecided("C18.D4", pm.qualname, "guard value", detail=f"MSM predicate not foldable for {u}", **loc)
-    ctx.instance("identity universe evaluated", len(universe), 173)
+    ctx.instance("identity universe evaluated", len(universe), 4000)
     ctx.instance("identities passing the MSM helper guard", passed, 49)
 
     # ---------------- D5 4076_201 helper
@@ -271,7 +271,28 @@ def run(eng, ctx):
         ts = h.type.elts if isinstance(h.type, ast.Tuple) else [h.type]
         names = {norm(t) for t in ts if t is not None}
         ctx.check(names == {"AttributeError"}, "C18.D5", ph.qualname, f"except {', '.join(sorted(names))}", expected="AttributeError only", found=str(sorted(names)), **eng.loc(ph, h))
-    ctx.instance("4076_201 handlers", len(hs), 1)
+    ctx.notes["coefficient_probe_handlers"] = len(hs)
+    # ---- D7: helpers must not use per-iteration values the decoder overwrites
+    ctx.rule("C18.D7", "helpers read only attributes that hold one value per message or per index: a derived counter stored un-indexed inside a repeating group "
+                       "(overwritten for every layer) must not be used as if it described each layer")
+    overwritten = {}
+    for cnt, src in facts["derived_counters"].items():
+        depths = {o.depth for _, ident, d, _ in T.definitions() for o in T.walk(ident, d) if o.kind == "field" and o.key == src}
+        if depths and max(depths) >= 1:
+            overwritten[cnt] = src
+    for hf, hse, hp in ((pm, se, msgp), (ph, sh, mp)):
+        used = {}
+        for e in hse.effects:
+            for st in subterms(e.term):
+                if isinstance(st, tuple) and st and st[0] == "attr" and st[1] == hp and st[2] in overwritten:
+                    used.setdefault(st[2], e)
+                if isinstance(st, tuple) and st and st[0] == "call" and st[2] == ("builtin", "getattr") and len(st[3]) >= 2 and st[3][0] == hp and is_const(st[3][1]) and st[3][1][1] in overwritten:
+                    used.setdefault(st[3][1][1], e)
+        for name, e in sorted(used.items(), key=lambda x: x[1].seq)[:3]:
+            ctx.bad("C18.D7", hf.qualname, norm(e.node)[:80], expected="per-layer quantities are taken from the indexed attributes",
+                    found=f"{name} is stored un-indexed while {overwritten[name]} is decoded once per group iteration: it holds the last iteration's value only", **eng.loc(hf, e.node))
+        if not used:
+            ctx.ok("C18.D7", hf.qualname, "attributes read", found="no overwritten per-iteration attribute is read", **eng.loc(hf, hf.node))
 
     # ---------------- D6 order
     ctx.rule("C18.D6", "both MSM loops are range(1, count+1) with append (ascending index order); count = the decoder's NSat / NCell attributes")
